@@ -1,4 +1,4 @@
-(* Extraction of the C02 executable model (Tip5 on Montgomery words) and of the value-level specification. *)
+(* Extraction of the C15 executable model (Tip5 sponge on Montgomery words) and of the value-level specification. *)
 From Coq Require Import Extraction ExtrOcamlBasic ExtrOcamlZBigInt ZArith List.
 From TF Require Import Word BFieldGen Tip5Ssa Tip5Gen Tip5 Tip5Spec.
 Extraction Language OCaml.
@@ -7,8 +7,9 @@ Extraction Language OCaml.
    (0 for a negative exponent) and is part of the trusted base of the correspondence, like ExtrOcamlZBigInt. *)
 Extract Constant Z.pow =>
   "(fun x y -> if Big_int_Z.sign_big_int y < 0 then Big_int_Z.zero_big_int else Big_int_Z.power_big_int_positive_big_int x y)".
-Extraction "../ocaml/gen_c02/model.ml"
-  P bfe_new bfe_value
-  permutation trace hash_10 hash_pair digest_hash sbox_layer mds_generated round
-  mds_lane_ok mds_split_hi_ok mds_split_lo_ok
-  bfe_mul wadd spec_p spec_permutation spec_trace spec_hash_10 spec_hash_pair spec_digest_hash spec_sbox spec_mds.
+Extraction "../ocaml/gen_c15/model.ml"
+  P bfe_new bfe_value bfe_one bfe_zero
+  tip5_new tip5_init absorb squeeze hash_varlen tip5_pad_and_absorb_all recording_pad_and_absorb_all
+  sample_indices sample_scalars permutation hash_10
+  spec_p spec_pad spec_hash_varlen spec_absorb spec_squeeze spec_stream spec_sample_indices spec_min_squeezes
+  spec_sample_scalars spec_permutation spec_hash_10.
